@@ -78,6 +78,7 @@ pub fn key_table(u: i64, dmax: i64, advmax: i64, w: &[u32; 8]) -> Vec<OpSpec> {
         // big universes: now and then a mass expiry and a burst of queries that lazily removes it
         spec(if dmax >= 100 { 1 } else { 0 }, K_ADV, &[dmax / 2..=dmax]),
         spec(if dmax >= 100 && w[1] + w[2] + w[4] > 0 { 1 } else { 0 }, K_DRAIN, &[32..=400]),
+        spec(if u >= 64 && w[0] > 0 { (w[0] / 12).max(1) } else { 0 }, K_RUN, &[0..=u - 1, 1..=80, 0..=1, 0..=dmax]),
     ]
 }
 
@@ -166,6 +167,8 @@ pub fn ord_table(u: i64, w: &[u32; 10]) -> Vec<OpSpec> {
         spec(w[7], O_HDEL, &[0..=u + 1]),
         spec(w[8], O_STEP, &[0..=u - 1, 0..=1]),
         spec(w[9], O_WALK, &[]),
+        // monotone insertion runs (universes big enough to hold them)
+        spec(if u >= 64 && w[0] > 0 { (w[0] / 12).max(1) } else { 0 }, O_RUN, &[0..=u - 1, 1..=80, 0..=1]),
     ]
 }
 
@@ -348,6 +351,31 @@ pub fn seg_domain_cases(prop: &'static str) -> BoxedStrategy<Case> {
             let mut c = Case::new(prop, "seg");
             c.set("lo", lo).set("len", len).set("rtype", rt).set("domain_battery", 1);
             c
+        })
+        .boxed()
+}
+
+
+/// Histories made mostly of monotone insertion runs (block sizes around powers of two included),
+/// interleaved with the given observation / removal mix (weights as in `ord_table`, `ins` unused).
+pub fn ord_runs_cases(prop: &'static str, family: &'static str, coll: &'static str, vals: Vec<&'static str>, w: [u32; 10]) -> BoxedStrategy<Case> {
+    (pick(&[400i64, 2000]), pick(CAPS), pick(&vals))
+        .prop_flat_map(move |(u, cap, val)| {
+            let lens: Vec<i64> = vec![1, 2, 3, 5, 7, 8, 9, 15, 16, 17, 24, 30, 31, 32, 33, 35, 40, 48, 63, 64, 65, 70, 100, 127, 128, 129, 140];
+            let run = (0..=u - 1, pick(&lens), 0..=1i64).prop_map(|(s, l, d)| RawOp::new(O_RUN, &[s, l, d])).boxed();
+            let mut table = ord_table(u, &w);
+            table.retain(|t| t.kind != O_RUN && t.kind != O_INS);
+            let other: Vec<(u32, BoxedStrategy<RawOp>)> = table.iter().filter(|t| t.weight > 0).map(|t| (t.weight, op_strategy(t))).collect();
+            let total: u32 = other.iter().map(|o| o.0).sum();
+            let mut alts = vec![(total.max(1) * 2, run)];
+            alts.extend(other);
+            let one = Union::new_weighted(alts);
+            prop::collection::vec(one, 2..=14).prop_map(move |ops| {
+                let mut c = Case::new(prop, family);
+                c.set("coll", coll).set("val", val).set("cap", cap).set("U", u);
+                c.ops = ops;
+                c
+            })
         })
         .boxed()
 }
